@@ -223,6 +223,12 @@ impl StateMachine<'_> {
                     &tabs::expand(&grep_line.path, &self.config.tab_cfg),
                     grep_line.line_number,
                 )
+                .filter(|sections| {
+                    spells(
+                        sections,
+                        &tabs::expand(&grep_line.code, &self.config.tab_cfg),
+                    )
+                })
                 .unwrap_or(StyleSectionSpecifier::Style(
                     self.config.grep_match_line_style,
                 ))
@@ -365,6 +371,12 @@ impl StateMachine<'_> {
                     &tabs::expand(&grep_line.path, &self.config.tab_cfg),
                     grep_line.line_number,
                 )
+                .filter(|sections| {
+                    spells(
+                        sections,
+                        &tabs::expand(&grep_line.code, &self.config.tab_cfg),
+                    )
+                })
                 .unwrap_or(StyleSectionSpecifier::Style(
                     self.config.grep_match_line_style,
                 ))
@@ -444,6 +456,19 @@ fn get_code_style_sections<'b>(
         Some(StyleSectionSpecifier::StyleSections(match_style_sections))
     } else {
         None
+    }
+}
+
+/// The style sections are laid over the code as it was parsed from the line without its escape
+/// sequences: they must spell the same text (they do not e.g. when tab expansion has changed the
+/// inside of a malformed escape sequence of the raw line).
+fn spells(sections: &StyleSectionSpecifier, code: &str) -> bool {
+    match sections {
+        StyleSectionSpecifier::StyleSections(sections) => sections
+            .iter()
+            .flat_map(|(_, s)| s.bytes())
+            .eq(code.bytes()),
+        StyleSectionSpecifier::Style(_) => true,
     }
 }
 
